@@ -44,6 +44,12 @@ for f, lns in files.items():
             continue
         if lines[i].startswith('//@') and not lines[i].startswith('//@?'):
             lines[i] = '//@?' + lines[i][3:] + '   // undischarged on the reference tree: not claimed'
+            # continuation lines of the same clause go with it
+            j = i + 1
+            kw = re.compile(r'^//@\s*(requires|ensures|invariant|decreases|nopanic|assigns|pure|loop|func|spec|order-independent|trusted|table|row|exact|except)\b')
+            while j < len(lines) and lines[j].startswith('//@') and not lines[j].startswith('//@?') and not kw.match(lines[j]) and lines[j].strip() != '//@':
+                lines[j] = '//@?' + lines[j][3:]
+                j += 1
     open(f, 'w').write('\n'.join(lines))
 # excepts: find func block
 specfiles = glob.glob('/repo/*/verif_contracts*.go')
